@@ -891,9 +891,9 @@ def stdin_script(rnd):
 
 
 def modelled_case(rnd, subs=None, format_types=None):
-    # (textcolor and `format ansi-8bit` are described by relations, not as functions: they have direct oracles in
-    # C09 / C12 and are not compared with the model here)
-    sub = rnd.choice(subs or ["color", "lighten", "darken", "saturate", "desaturate", "rotate", "complement", "to-gray",
+    # (textcolor, to-gray and `format ansi-8bit` are described by relations, not as functions: they have direct
+    # oracles in C09 / C12 and are not compared with the model here)
+    sub = rnd.choice(subs or ["color", "lighten", "darken", "saturate", "desaturate", "rotate", "complement",
                               "colorblind", "set", "format", "mix", "color", "format", "set", "gray", "gradient", "sort-by", "paint", "random", "distinct", "pick"])
     if sub in ("lighten", "darken", "saturate", "desaturate"):
         cargs = [number_text(rnd, 0, 1)]
@@ -1016,10 +1016,20 @@ def modelled_family(res, rnd, subs, n, format_types=None):
         if argv[0] in UNPREDICTED_OUTPUT:
             out = b"".join(b"?\n" for _ in out.split(b"\n")[:-1]) + (b"" if out.endswith(b"\n") or out == b"" else b"<partial>")
         impl = "ok %d %s %s %s" % (rc, hexs(out), cls or "-", hexs(msg or ""))
-        ops.append(op); meta.append((op, argv, impl))
-    for (op, argv, impl), mo in zip(meta, model_batch(ops)):
+        ops.append(op); meta.append((op, argv, impl, data))
+    compare_cli_with_model(res, meta, model_batch(ops))
+
+
+def compare_cli_with_model(res, meta, outs):
+    """meta: (op, argv, impl line, stdin bytes); outs: the model's lines."""
+    pending = []
+    for (op, argv, impl, data), mo in zip(meta, outs):
         res.model_op()
         if canon_cli(mo) != canon_cli(impl):
+            named = unpinned_error_choice(argv, impl, mo, data)
+            if named is not None:
+                pending.append((op, argv, impl, mo, named))
+                continue
             def show(x):
                 t = x.split(" ")
                 try:
@@ -1027,6 +1037,45 @@ def modelled_family(res, rnd, subs, n, format_types=None):
                 except Exception:
                     return x[:300]
             res.disagree("%r  [%s]" % (argv, op[:300]), show(impl), show(mo))
+    # commands that read several texts before printing anything (the colours of distinct / gradient / sort-by,
+    # the base of mix, the two colours of paint) and that fail: *which* of several applicable errors is reported
+    # is not pinned by any property. The implementation may name another unreadable colour than the model
+    # does - provided the text it names was given and really is unreadable (asked of the model's parser).
+    if pending:
+        answers = model_batch(["cli color 0 1 %s 0" % hexs(n) for (_, _, _, _, n) in pending])
+        for (op, argv, impl, mo, named), ans in zip(pending, answers):
+            res.model_op()
+            if ans.split(" ")[:2] == ["ok", "1"]:
+                res.tag("unpinned-error-choice:names-another-unreadable-colour")
+            else:
+                res.disagree("%r  [%s]" % (argv, op[:300]), impl[:300], mo[:300])
+
+
+COLLECT_FIRST = ("distinct", "gradient", "sort-by", "mix", "paint")
+
+
+def unpinned_error_choice(argv, impl, mo, data=None):
+    """Both runs fail (exit 1) after the same output, in a command that collects its inputs first, and the
+    implementation reports a parse error naming a text that was given on the command line or on stdin: returns
+    that text (still to be confirmed unreadable), else None."""
+    ti, tm = impl.split(" "), mo.split(" ")
+    if len(ti) != 5 or len(tm) != 5 or ti[0] != "ok" or tm[0] != "ok":
+        return None
+    if ti[1] != "1" or tm[1] != "1" or ti[2] != tm[2] or argv[0] not in COLLECT_FIRST or ti[3] != "color-parse":
+        return None
+    try:
+        msg = unhex(ti[4])
+        msg = msg.decode("utf-8", "replace") if isinstance(msg, bytes) else msg
+    except Exception:
+        return None
+    m = re.match(r"Could not parse color '(.*)'$", msg, re.S)
+    if not m:
+        return None
+    named = m.group(1)
+    given = list(argv[1:])
+    if data:
+        given += [l.decode("utf-8", "replace") for l in data.split(b"\n")]
+    return named if named in given else None
 
 
 def canon_cli(line):
@@ -1097,18 +1146,8 @@ def c19(res, tier, seed, lib):
         if argv[0] in UNPREDICTED_OUTPUT:
             out = b"".join(b"?\n" for _ in out.split(b"\n")[:-1]) + (b"" if out.endswith(b"\n") or out == b"" else b"<partial>")
         impl = "ok %d %s %s %s" % (rc, hexs(out), cls or "-", hexs(msg or ""))
-        ops.append(op); meta.append((op, argv, impl))
-    outs = model_batch(ops)
-    for (op, argv, impl), mo in zip(meta, outs):
-        res.model_op()
-        if canon_cli(mo) != canon_cli(impl):
-            def show(x):
-                t = x.split(" ")
-                try:
-                    return "%s %s stdout=%r %s msg=%r" % (t[0], t[1], unhex(t[2])[:300], t[3], unhex(t[4])[:200])
-                except Exception:
-                    return x[:300]
-            res.disagree("%r  [%s]" % (argv, op[:300]), show(impl), show(mo))
+        ops.append(op); meta.append((op, argv, impl, data))
+    compare_cli_with_model(res, meta, model_batch(ops))
     # ---- prefix property (direct oracle, through the library): colours as args / stdin / '-' identical ----
     for _ in range(60 if tier != "thorough" else 600):
         texts = [rand_color_text(rnd) for _ in range(rnd.randrange(1, 5))]
@@ -1392,7 +1431,7 @@ def c09(res, tier, seed, lib):
     """`pastel to-gray` / `pastel textcolor` hand every colour to the library functions: the printed
     gray is achromatic with the input's luminance (within one gray step), grays stay, and the text
     colour is black or white with contrast >= 4.5."""
-    modelled_family(res, random.Random(seed + 77), ['to-gray', 'gray'], 100 if tier != "thorough" else 1200)   # textcolor: a relation, judged below
+    modelled_family(res, random.Random(seed + 77), ['gray'], 100 if tier != "thorough" else 1200)   # textcolor, to-gray: relations, judged below
     rnd = random.Random(seed)
     n = 60 if tier != "thorough" else 1200
     texts = near_gray_texts(rnd, n) + [rand_color_text(rnd) for _ in range(n)] + ["#%02x%02x%02x" % (g, g, g) for g in range(0, 256, 5 if tier != "thorough" else 1)]
@@ -1411,7 +1450,9 @@ def c09(res, tier, seed, lib):
             res.model_op()
             want = unhex(f_.split(" ")[1]).decode() if f_.startswith("ok ") else "?"
             if want != ln:
-                res.disagree(inp, ln, want)
+                # to_gray is described by a relation (achromatic, luminance within one gray step, idempotent, grays
+                # fixed): an implementation may choose another such gray than the model; the oracles below decide
+                res.tag("relational-op:to-gray-differs-from-model")
             if not (g.ok and i.ok):
                 res.fail("output-parses", "cli:to-gray", inp, ln)
                 continue
@@ -1440,7 +1481,7 @@ def c09(res, tier, seed, lib):
 def c10(res, tier, seed, lib):
     """Alpha through the CLI: every unary transformation and every `set` of a non-alpha property
     prints the input's alpha; alpha is printed exactly when it differs from 1."""
-    modelled_family(res, random.Random(seed + 77), ['lighten', 'darken', 'saturate', 'desaturate', 'rotate', 'complement', 'to-gray', 'colorblind', 'set', 'mix', 'color'], 200 if tier != "thorough" else 3000)
+    modelled_family(res, random.Random(seed + 77), ['lighten', 'darken', 'saturate', 'desaturate', 'rotate', 'complement', 'colorblind', 'set', 'mix', 'color'], 200 if tier != "thorough" else 3000)
     rnd = random.Random(seed)
     n = 8 if tier != "thorough" else 80
     texts = []
@@ -1823,7 +1864,7 @@ def c08(res, tier, seed, lib):
     # argument validation
     for argv, want in [(["gradient", "-n", "1", "red", "blue"], 1), (["gradient", "-n", "0", "red", "blue"], 1),
                        (["gradient", "red"], 1), (["gradient", "-n", "x", "red", "blue"], 1), (["gradient"], 2),
-                       (["gradient", "-s", "hsv", "red", "blue"], 2)]:
+                       (["gradient", "-s", "no-such-space", "red", "blue"], 2)]:   # (a space pastel may one day accept, like hsv, is not demanded to fail)
         rc, out, err = run_cli(argv)
         res.case(repr(argv))
         res.check(rc == want and out == b"", "gradient-validation", "cli:gradient", repr(argv), "rc=%s out=%r" % (rc, out[:60]))
@@ -1910,8 +1951,9 @@ def c06(res, tier, seed, lib):
                 try:
                     back = float(out2.decode().strip())
                     want = min(max(v, lo), hi) if p != "hsl-hue" else v % 360
-                    # the printed hsl line carries 1 decimal of s/l and whole degrees of hue
-                    tol2 = {"hsl-hue": 0.5001, "hsl-saturation": 0.00051, "hsl-lightness": 0.00051}[p]
+                    # two printing hops (the hsl line of `set`, then the read-out of `format`), each of which may
+                    # round to whole degrees / one decimal of a per cent: allow half a unit of the last place per hop
+                    tol2 = {"hsl-hue": 1.0001, "hsl-saturation": 0.00101, "hsl-lightness": 0.00101}[p]
                     res.check(abs(back - want) <= tol2 or (p == "hsl-hue" and abs(abs(back - want) - 360) <= tol2), "set-then-format-reads-value", "cli:set", inp, "read back %r, expected %r" % (back, want))
                 except ValueError:
                     res.fail("set-then-format-reads-value", "cli:set", inp, repr(out2))
